@@ -16,6 +16,18 @@ import (
 type scriptedReader struct {
 	steps []rstep
 	log   [][]interface{}
+	calls int // Read calls and bytes delivered (kept even when the per-call log is dropped for very long runs)
+	total int
+}
+
+// reads: the per-call log, or nothing when there were too many calls to log (the totals are then in the event)
+func (r *scriptedReader) reads(ev Ev) {
+	ev["reads_total"], ev["reads_calls"] = r.total, r.calls
+	if r.calls > 4096 {
+		ev["reads"] = [][]interface{}{}
+		return
+	}
+	ev["reads"] = r.log
 }
 type rstep struct {
 	d   []byte
@@ -33,12 +45,16 @@ func mkErr(s string) error {
 }
 
 func (r *scriptedReader) Read(p []byte) (int, error) {
+	r.calls++
 	if len(r.steps) == 0 {
-		r.log = append(r.log, []interface{}{len(p), 0, "EOF"})
+		if r.calls <= 4097 {
+			r.log = append(r.log, []interface{}{len(p), 0, "EOF"})
+		}
 		return 0, io.EOF
 	}
 	st := &r.steps[0]
 	n := copy(p, st.d)
+	r.total += n
 	st.d = st.d[n:]
 	var err error
 	es := ""
@@ -47,12 +63,21 @@ func (r *scriptedReader) Read(p []byte) (int, error) {
 		es = st.err
 		r.steps = r.steps[1:]
 	}
-	r.log = append(r.log, []interface{}{len(p), n, es})
+	if r.calls <= 4097 {
+		r.log = append(r.log, []interface{}{len(p), n, es})
+	}
 	return n, err
 }
 
 func newScripted(c Cmd) *scriptedReader {
 	r := &scriptedReader{log: [][]interface{}{}}
+	// run {d, n}: n copies of one candidate in front of the script (very long runs of rejected candidates)
+	if rn, ok := c["run"].(map[string]interface{}); ok {
+		m := Cmd(rn)
+		for i := 0; i < m.num("n"); i++ {
+			r.steps = append(r.steps, rstep{m.bytes("d"), ""})
+		}
+	}
 	for _, s := range c.list("script") {
 		m := Cmd(s.(map[string]interface{}))
 		r.steps = append(r.steps, rstep{m.bytes("d"), m.str("err")})
@@ -113,9 +138,9 @@ func init() {
 		ev["priv"], ev["x"], ev["y"], ev["err"] = B(nil), B(nil), B(nil), "unset"
 		defer func() {
 			if sr != nil {
-				ev["reads"] = sr.log
+				sr.reads(ev)
 			} else {
-				ev["reads"] = [][]interface{}{}
+				ev["reads"], ev["reads_total"], ev["reads_calls"] = [][]interface{}{}, 0, 0
 			}
 		}()
 		priv, x, y, err := sm2.GenerateKey(rd)
@@ -131,7 +156,7 @@ func init() {
 		ev["r"], ev["s"], ev["err"] = B(nil), B(nil), "unset"
 		var ins [][]byte
 		defer func() {
-			ev["reads"] = sr.log
+			sr.reads(ev)
 			ev["priv_after"] = B(priv)
 			after := make([]B, len(ins))
 			for i := range ins {
@@ -178,7 +203,7 @@ func init() {
 		ev["pubx"], ev["puby"], ev["puberr"] = B(nil), B(nil), "unset"
 		ev["vok"], ev["verr"], ev["stage"] = false, "unset", "derive"
 		ev["vok2"], ev["sv_ins"], ev["sv_ins_after"] = false, []B{}, []B{}
-		defer func() { ev["reads"] = sr.log }()
+		defer func() { sr.reads(ev) }()
 		var pad [32]byte
 		copy(pad[32-len(priv):], priv) // the signer accepts shorter encodings; DerivePublic wants 32 bytes
 		px, py, err := sm2.DerivePublic(pad[:])
